@@ -129,6 +129,77 @@ def combiner_typestate(repo: Repo, res: CheckResult) -> None:
                         f"(a provider is consulted twice for one request)",
                         emit_node.lineno,
                     ))
+    # linearity: every pair handed to register_item reaches the output exactly once -- either through the flush
+    # (argument of _stop_combo, which appends it once) or by being stored into the accumulator
+    reg = ci.methods.get("register_item")
+    stop = ci.methods.get("_stop_combo")
+    if reg is None or stop is None:
+        raise AnalysisError("anchor vanished: ExactOriginCombiner.register_item/_stop_combo")
+    pair = reg.args.args[1].arg
+    unpacked: Set[str] = set()
+    for node in ast.walk(reg):
+        if isinstance(node, ast.Assign) and norm(node.value) == pair and isinstance(node.targets[0], ast.Tuple):
+            unpacked |= {norm(e) for e in node.targets[0].elts[1:]}
+    for path in enumerate_paths(reg.body):
+        if path[-1][0] not in ("return", "fall"):
+            continue
+        uses = 0
+        for step in path:
+            if step[0] != "stmt":
+                continue
+            st = step[1]
+            for c in ast.walk(st):
+                if isinstance(c, ast.Call) and norm(c.func) == "self._stop_combo" and c.args and norm(c.args[0]) == pair:
+                    uses += 1
+            if isinstance(st, ast.Assign) and any(isinstance(t, ast.Subscript) and any(_is_self_attr(t.value, a) for a in accs)
+                                                  for t in st.targets) and (norm(st.value) in unpacked or norm(st.value) == pair):
+                uses += 1
+        conds = [("not " if not s[2] else "") + norm(s[1]) for s in path if s[0] == "test"]
+        res.evaluated(f"linearity:register_item:{' and '.join(conds)}", True)
+        if uses != 1:
+            res.add(Finding("C09", "TYPESTATE.item-not-registered-once", m.rel, "ExactOriginCombiner.register_item",
+                            f"{uses} registrations [path: {' and '.join(conds)}]",
+                            f"on the path where {' and '.join(conds) or 'always'} the (checker, handler) pair reaches the "
+                            f"router items {uses} times (flushed as a standalone item and/or stored into the accumulator): a "
+                            "provider is consulted twice for one request or never", reg.lineno))
+    sp = stop.args.args[1].arg
+    for path in enumerate_paths(stop.body):
+        if path[-1][0] not in ("return", "fall"):
+            continue
+        appends = sum(1 for s in path if s[0] == "stmt" for c in ast.walk(s[1]) if isinstance(c, ast.Call)
+                      and isinstance(c.func, ast.Attribute) and c.func.attr in ("append", "insert") and c.args
+                      and norm(c.args[-1]) == sp)
+        not_none = any(s[0] == "test" and norm(s[1]) == f"{sp} is not None" and s[2] for s in path) or \
+            any(s[0] == "test" and norm(s[1]) == f"{sp} is None" and not s[2] for s in path)
+        is_none = any(s[0] == "test" and norm(s[1]) == f"{sp} is not None" and not s[2] for s in path) or \
+            any(s[0] == "test" and norm(s[1]) == f"{sp} is None" and s[2] for s in path)
+        res.evaluated(f"linearity:_stop_combo:{appends}:{not_none}:{is_none}", True)
+        if (not_none and appends != 1) or (is_none and appends != 0) or (not not_none and not is_none and appends != 1):
+            res.add(Finding("C09", "TYPESTATE.item-not-registered-once", m.rel, "ExactOriginCombiner._stop_combo",
+                            f"{appends} appends of `{sp}`", "the item that stops the combo must be appended to the result "
+                            "exactly once (and never when it is None)", stop.lineno))
+    # driver: every input pair is registered once, finalize once after the loop, results concatenated in order
+    drv = m.functions.get("create_router_for_located_request")
+    if drv is None:
+        raise AnalysisError("anchor vanished: create_router_for_located_request")
+    res.evaluated("linearity:driver", True)
+    loops = [l for l in drv.body if isinstance(l, ast.For)]
+    ok_drv = False
+    if len(loops) == 1:
+        lv = norm(loops[0].target)
+        regs = [c for c in ast.walk(loops[0]) if isinstance(c, ast.Call) and isinstance(c.func, ast.Attribute)
+                and c.func.attr == "register_item"]
+        fins = [c for c in ast.walk(drv) if isinstance(c, ast.Call) and isinstance(c.func, ast.Attribute)
+                and c.func.attr == "finalize"]
+        fins_in_loop = [c for c in ast.walk(loops[0]) if isinstance(c, ast.Call) and isinstance(c.func, ast.Attribute)
+                        and c.func.attr == "finalize"]
+        ok_drv = len(regs) == 1 and norm(regs[0].args[0]) == lv and len(fins) == 1 and not fins_in_loop \
+            and fins[0].lineno > loops[0].lineno \
+            and all(isinstance(m.parent(c), ast.Call) and norm(m.parent(c).func).endswith(".extend") for c in regs + fins)
+    if not ok_drv:
+        res.add(Finding("C09", "TYPESTATE.driver", m.rel, "create_router_for_located_request", norm(drv)[:160],
+                        "the router builder must register every (checker, handler) pair once, in recipe order, and flush "
+                        "the accumulator once after the last pair", drv.lineno))
     res.count("TYPESTATE.combiner-paths", n_paths, 8)
     res.count("TYPESTATE.emitting-paths", n_emitting, 2)
     res.sample({"rule": "flush/reset pairing", "class": "ExactOriginCombiner", "accumulators": accs,
@@ -288,6 +359,31 @@ def send_inner(repo: Repo, res: CheckResult) -> None:
         if not (ok_term and ok_cont):
             res.add(Finding("C09", "BUS.decline", m.rel, qual, "except CannotProvide handler",
                             "handler must re-raise terminal errors and continue on non-terminal ones", h.lineno))
+    # recursion resolver: the stub of a location is bound to the response of the COMPLETE search (offset 0) of the
+    # top-level send; searches continued by provide_from_next (send_chaining) must not rebind it
+    rb = m.classes.get("RecursiveRequestBus")
+    if rb is None:
+        raise AnalysisError("anchor vanished: RecursiveRequestBus")
+    res.evaluated("bus:recursion-tracking", True)
+    for c in ast.walk(m.tree):
+        if isinstance(c, ast.Call) and isinstance(c.func, ast.Attribute) and c.func.attr == "track_response":
+            fnc = m.enclosing_function(c)
+            ok_track = fnc is not None and fnc.name == "send" and m.enclosing_class(c) is rb and len(c.args) == 2 \
+                and isinstance(c.args[1], ast.Name)
+            if ok_track:
+                srcs = [a.value for a in ast.walk(fnc) if isinstance(a, ast.Assign) and norm(a.targets[0]) == c.args[1].id]
+                ok_track = len(srcs) == 1 and norm(srcs[0]).replace(" ", "") in ("self._send_inner(request,0)",
+                                                                                  "super()._send_inner(request,0)")
+            if not ok_track:
+                res.add(Finding("C09", "BUS.recursion-tracking", m.rel, m.qualname(c), norm(c),
+                                "the recursion stub must be bound to the response of the complete search started by send() "
+                                "(offset 0): bound from a continued search (provide_from_next) it skips the chaining "
+                                "provider, so the user function of Chain.FIRST/LAST is applied zero times on recursion",
+                                c.lineno))
+    for name in ("_send_inner", "send_chaining"):
+        if name in rb.methods:
+            res.add(Finding("C09", "BUS.recursion-tracking", m.rel, f"RecursiveRequestBus.{name}", f"override of {name}",
+                            f"RecursiveRequestBus must not override {name}: continued searches are not tracked", rb.methods[name].lineno))
     # the loop returns the first response
     res.evaluated("bus:first-response", True)
     loops = [n for n in walk_no_nested(fn) if isinstance(n, ast.While)]
@@ -474,6 +570,20 @@ def retort_as_provider(repo: Repo, res: CheckResult) -> None:
     if not ok_checker:
         res.add(Finding("C09", "RETORT.as-provider", m.rel, "SearchingRetort.get_request_handlers", "checker",
                         "a retort placed in a recipe must accept every request class it can serve (always-true checker)",
+                        fn.lineno))
+    # handlers are built afresh from the current recipe on every call: a retort is cloned by copy(), so anything
+    # memoised on the instance would make the clone answer through the original retort
+    stores = [n for n in ast.walk(fn) if isinstance(n, (ast.Assign, ast.AugAssign)) and any(
+        isinstance(t, ast.Attribute) and isinstance(t.value, ast.Name) and t.value.id == "self"
+        for t in (n.targets if isinstance(n, ast.Assign) else [n.target]))]
+    attr_returns = [r for r in walk_no_nested(fn) if isinstance(r, ast.Return) and isinstance(r.value, ast.Attribute)
+                    and isinstance(r.value.value, ast.Name) and r.value.value.id == "self"]
+    res.evaluated("retort-as-provider:fresh-handlers", True)
+    if stores or attr_returns:
+        res.add(Finding("C09", "RETORT.as-provider-memoised", m.rel, "SearchingRetort.get_request_handlers",
+                        "; ".join(norm(x)[:60] for x in stores + attr_returns),
+                        "the retort-as-provider handlers are memoised on the instance: replace()/extend() copy the instance, "
+                        "so a derived retort placed in a recipe answers from the ORIGINAL retort's recipe and options",
                         fn.lineno))
     pf = ci.methods.get("_provide_from_recipe")
     if pf is None or "self._create_mediator" not in norm(pf):
